@@ -66,7 +66,7 @@ Bufs == {1, 2}
 \* pc: "lo" "localhost" "empty" "port0" "if" - all the same to the model
 \*     "empty0" = "", "lo0" = "localhost:0", "if0" = "<interface address>:0", "grp0" = "<g1>:0": own ephemeral
 \*     port, so nothing of the scenario's traffic is addressed to them (constructor/getter coverage)
-\*     "solo" = ":0": alone on its own port, reached by unicast only (act "uni")
+\*     "solo" = ":Q": alone on its own port Q, reached by unicast only (act "uni")
 BindIp(b) == IF b \in {"any", "solo"} THEN "0.0.0.0" ELSE IF b = "grp" THEN G1
              ELSE IF b = "if" /\ Kind = "mc" THEN "ifip"
              ELSE IF b \in {"empty0", "lo0", "if0", "grp0"} THEN "other-port" ELSE "lo"
